@@ -61,6 +61,7 @@ _ss.StateSpace.choose_possible = _counted_choose
 # --------------------------------------------------------------------------------------------------------
 _PATH_VARS: List = []     # (name, SymbolicInt) created on the current path
 _PATH_NOTES: Dict = {}    # free-form per-path notes (known-finding tags etc.)
+VAR_RANGES: Dict = {}     # name -> (lo, hi) of every symbolic input created during the current explore()
 
 
 def fresh_int(name: str, lo: int, hi: int):
@@ -71,6 +72,7 @@ def fresh_int(name: str, lo: int, hi: int):
         space.add(z3.And(v >= lo, v <= hi))
         s = SymbolicInt(v)
         _PATH_VARS.append((name, s))
+        VAR_RANGES[name] = (lo, hi)
         return s
 
 
@@ -99,10 +101,14 @@ class Result:
     info: Any = None
     notes: Dict = field(default_factory=dict)
     exc: Optional[str] = None
+    vars: Dict = field(default_factory=dict)
 
 
 def explore(body, timeout: float = 60.0, per_path_timeout: Optional[float] = None, on_fail_info=None) -> Result:
     res = Result()
+    VAR_RANGES.clear()
+    from . import models as _models
+    gaps_before = len(_models.GAPS)
     before = dict(STATS)
     t0 = time.process_time()
     root = RootNode()
@@ -181,6 +187,7 @@ def explore(body, timeout: float = 60.0, per_path_timeout: Optional[float] = Non
     res.solver_s = STATS["solver_s"] - before["solver_s"]
     unknowns = STATS["unknown"] - before["unknown"]
     res.notes = all_notes
+    res.vars = dict(VAR_RANGES)
     if state["fail"]:
         res.status = "refuted"
         return res
@@ -206,8 +213,7 @@ def explore(body, timeout: float = 60.0, per_path_timeout: Optional[float] = Non
             why.append("status %s" % (st,))
         if unknowns:
             why.append("%d solver unknown/timeout" % unknowns)
-        from . import models
-        if models.GAPS:
-            why.append("model gap: " + models.GAPS[-1])
+        if len(_models.GAPS) > gaps_before:
+            why.append("model gap: " + _models.GAPS[-1])
         res.reason = "; ".join(why)
     return res
